@@ -3,7 +3,9 @@ import Enc.Model.Json.CodecChoiceExpand
 import Enc.Spec.Json.StdCodecChoice
 import Enc.Lemmas.JsonCodecChoiceTerm
 import Enc.Lemmas.JsonCodecChoiceStd
+import Enc.Lemmas.JsonCodecChoiceFull
 import Enc.Lemmas.JsonCodecChoiceCache
+import Enc.Spec.Json.EmbedCycle
 /-!
 # C01 / C09 — codec CONSTRUCTION in json/codec.go: which encoder a Go type gets, and that the shared cache cannot change it
 
@@ -13,10 +15,10 @@ Specification: `Enc/Spec/Json/StdCodecChoice.lean` (`stdD` = encoding/json's new
 run-time addressability). Correspondence: harness op `json.codecchoice` (harness/c01codec.go, ~3000 zoo values, three
 cache histories each), driver `Enc/Driver/JsonCodec.lean`.
 
-Statements only; proofs in Enc/Lemmas/JsonCodecChoice{Seen,Term,Std,Cache}.lean.
+Statements only; proofs in Enc/Lemmas/JsonCodecChoice{Seen,Term,Std,Evo,Emb,Shape,Full,Cache}.lean.
 -/
 namespace Enc.Props.C01Codec
-open Enc.Model.Json.CodecChoice Enc.Spec.Json.StdCodecChoice
+open Enc.Model.Json.CodecChoice Enc.Spec.Json.StdCodecChoice Enc.Spec.Json.EmbedCycle
 
 /-! ## Termination: recursive types through `seen` -/
 
@@ -57,23 +59,63 @@ theorem marshaler_order_eq_std (env : Env) (t : TD) (canAddr : Bool) (c : Choice
 abbrev Simple := Lemmas.JsonCodecChoiceStd.Simple
 abbrev KeysOK := Lemmas.JsonCodecChoiceStd.KeysOK
 
-/-- **choose_eq_std_partial.** For every type built from scalar kinds, the special types, interfaces, defined types of
-scalar / interface / chan kind WITH ANY METHOD SETS, and unnamed slices, arrays, maps and pointers nested arbitrarily
-(`Simple`), whose map key types are ones encoding/json accepts (`KeysOK`), for both top-level addressabilities and every
-depth: the encoder tree constructCodec builds IS the tree of encoding/json's rule — kind dispatch, marshaler detection
-on T and *T, addressability of slice elements / array elements (inherited) / pointer targets / map values (never),
-byte slices, the five fast map paths, map keys.
+/-- **choose_eq_std.** For EVERY environment of type definitions (mutually recursive ones included) and every type `t`
+of the universe — scalar kinds, the special types, interfaces, slices, arrays, maps, pointers, STRUCT types with
+embedding (promoted fields in place, through embedded pointers too) and the `string` option, defined types of any kind
+with any method sets, recursion through struct types (`seen`, back references `structRef`) and through named
+slice/map/pointer/array types (`recur`) — in which no struct embeds a struct type that contains the embedding struct
+again (`embedsRecursive env t = false`, a decidable certificate check for `NoEmbedCycle env t`, Spec/Json/EmbedCycle.lean),
+for both top-level addressabilities and every depth `d`: the encoder tree `constructCodec(t, {}, a)` builds, back
+references resolved in the final `seen`, IS the tree of encoding/json's rule (`newTypeEncoder` / `condAddr` /
+`typeFields` without the dominance rules): kind dispatch, marshaler detection on T and *T, addressability of slice
+elements / array elements (inherited) / pointer targets / map values (never) / struct fields (inherited; behind an
+embedded pointer always), byte slices, the five fast map paths, map keys (after fix 0a9d40c no hypothesis on the key
+types is left), the `string` option on scalars and pointers to scalars.
 
-FULL STATEMENT (not proved; what is missing is the bookkeeping of `seen` for struct types and named composite types):
+The hypothesis is necessary: `embedded_under_construction_differs` below is a type with `embedsRecursive = true` on
+which the two trees differ (finding `jsonEmbeddedStructUnderConstruction`). It is sufficient but not tight: when the
+struct type under construction and the embedded occurrence differ in addressability the trees can still agree. -/
+theorem choose_eq_std (env : Env) (t : TD) (a : Bool) (h : embedsRecursive env t = false) (d : Nat) :
+    expandD d env (choose env t a).2 (choose env t a).1 = stdD d env t a :=
+  Lemmas.JsonCodecChoiceFull.choose_eq_std env t a (embedsRecursive_sound env t h) d
 
-    theorem choose_eq_std (env : Env) (t : TD) (a : Bool) (hk : all map keys KeysOK) (hd : no definition body is a
-        special type) (he : no struct embeds a struct type that contains the embedding struct again) (d : Nat) :
-        expandD d env (choose env t a).2 (choose env t a).1 = stdD d env t a
+/-- the same with the graph-theoretic hypothesis itself: no struct type inside `t` embeds a struct type inside which
+the embedding struct occurs again -/
+theorem choose_eq_std_noEmbedCycle (env : Env) (t : TD) (a : Bool) (h : NoEmbedCycle env t) (d : Nat) :
+    expandD d env (choose env t a).2 (choose env t a).1 = stdD d env t a :=
+  Lemmas.JsonCodecChoiceFull.choose_eq_std env t a h d
 
-Evidence for it: the statement was evaluated for d ≤ 8 on 43 000 random type graphs (up to 4 mutually recursive
-definitions, structs, embedding, `string` option, all method-set combinations; scratch/fuzz.lean) and for d ≤ 12 on the
-~3000 zoo descriptors (op json.codeceq) — no counterexample outside the two excluded shapes, which are genuine
-differences between segmentio and encoding/json (see `embedded_under_construction_differs`, `unmarshalOnly_key_differs`).
+/-- non-vacuity: `type S struct { E; V T; Next *S; L []S; Q *N `json:",string"` }`, `type E struct { *I; Y T }`
+(embedded, with an embedded pointer inside), `(*T).MarshalJSON`, `type N int` with `(*N).MarshalText`, `type R []R`
+inside: recursive through `seen` and through a named slice, and the hypothesis holds -/
+example :
+    let env : Env :=
+      [(1, ⟨noMeths, .struct (.cons "E" true false (.ref 3) (.cons "V" false false (.ref 2)
+              (.cons "Next" false false (.ptr (.ref 1)) (.cons "L" false false (.slice (.ref 1))
+              (.cons "Q" false true (.ptr (.ref 4)) (.cons "R" false false (.ref 6) .nil))))))⟩),
+       (2, ⟨⟨.ptr, .none, .none, .none⟩, .struct (.cons "X" false false (.prim .int) .nil)⟩),
+       (3, ⟨noMeths, .struct (.cons "I" true false (.ptr (.ref 5)) (.cons "Y" false false (.ref 2) .nil))⟩),
+       (4, ⟨⟨.none, .ptr, .none, .none⟩, .prim .int⟩),
+       (5, ⟨noMeths, .struct (.cons "Z" false true (.prim .int) .nil)⟩),
+       (6, ⟨noMeths, .slice (.ref 6)⟩)]
+    embedsRecursive env (.ref 1) = false ∧
+    stdD 3 env (.ref 1) true =
+      .struct (.cons "Z" (.prim .int) (.embedPtr (.quoted (.prim .int))) (.cons "Y" (.ref 2) .mjAddr
+        (.cons "V" (.ref 2) .mjAddr (.cons "Next" (.ptr (.ref 1)) (.ptr (stdD 1 env (.ref 1) true))
+        (.cons "L" (.slice (.ref 1)) (.slice (stdD 1 env (.ref 1) true))
+        (.cons "Q" (.ptr (.ref 4)) .mtDirect (.cons "R" (.ref 6) (.slice (.slice .cut)) .nil))))))) := by
+  decide +kernel
+
+/-- … and the type of the finding does not satisfy it -/
+example :
+    embedsRecursive [(1, ⟨noMeths, .struct (.cons "X" false false (.prim .int)
+        (.cons "F" false false (.slice (.struct (.cons "T" true false (.ref 1) .nil))) .nil))⟩)] (.ptr (.ref 1)) = true := by
+  decide +kernel
+
+/-- **choose_eq_std_partial** (kept from the first round; now a special case of `choose_eq_std`). For every type built
+from scalar kinds, the special types, interfaces, defined types of scalar / interface / chan kind WITH ANY METHOD SETS,
+and unnamed slices, arrays, maps and pointers nested arbitrarily (`Simple`): the encoder tree constructCodec builds IS
+the tree of encoding/json's rule.
 -/
 theorem choose_eq_std_partial (env : Env) (t : TD) (a : Bool) (hs : Simple env t = true) (hk : KeysOK env t = true)
     (d : Nat) : expandD d env (choose env t a).2 (choose env t a).1 = stdD d env t a :=
@@ -108,12 +150,21 @@ theorem embedded_under_construction_differs :
                 (.cons "F" (.slice (.struct (.cons "T" true false (.ref 1) .nil))) .cut .nil)))) .nil))) := by
   decide +kernel
 
-/-- **Finding (outside the stated domain of C01).** `map[K]V` where K (struct kind) only has `(*K).UnmarshalText`:
-constructMapCodec keeps the map codec and installs the unsupported-type encoder for the KEY, so empty and nil maps are
-written (`{}`, `null`); encoding/json refuses the map type. -/
-theorem unmarshalOnly_key_differs :
+/-- the hypothesis of `choose_eq_std` cannot be dropped: a type with `embedsRecursive = true` on which the trees differ -/
+theorem choose_eq_std_needs_hypothesis :
+    ∃ (env : Env) (t : TD) (a : Bool) (d : Nat), embedsRecursive env t = true ∧
+      expandD d env (choose env t a).2 (choose env t a).1 ≠ stdD d env t a :=
+  ⟨[(1, ⟨noMeths, .struct (.cons "X" false false (.prim .int)
+        (.cons "F" false false (.slice (.struct (.cons "T" true false (.ref 1) .nil))) .nil))⟩)],
+    .ptr (.ref 1), true, 4, by decide +kernel, by decide +kernel⟩
+
+/-- **Repaired finding** (was `unmarshalOnly_key_differs`; fix 0a9d40c). `map[K]V` where K (struct kind) only has
+`(*K).UnmarshalText`: constructMapCodec used to keep the map codec and install the unsupported-type encoder for the KEY
+only, so empty and nil maps were written (`{}`, `null`) where encoding/json refuses the map type. Now the map type
+itself gets the unsupported-type encoder (`kindUnsupported`), like encoding/json: model and specification agree. -/
+theorem unmarshalOnly_key_agrees :
     let env : Env := [(1, ⟨⟨.none, .none, .none, .ptr⟩, .struct (.cons "X" false false (.prim .int) .nil)⟩)]
-    (choose env (.map (.ref 1) (.prim .int)) false).1 = .map .unsupported (.prim .int) ∧
+    (choose env (.map (.ref 1) (.prim .int)) false).1 = .unsupported ∧
     stdD 3 env (.map (.ref 1) (.prim .int)) false = .unsupported := by
   decide +kernel
 
@@ -135,6 +186,15 @@ theorem cache_history_independent (env : Env) (t : TD) (cache : Cache) (h : Good
 /-- every cache that a sequence of calls (any types, any order) leaves behind is correct -/
 theorem reachable_good (env : Env) (cache : Cache) (h : Reachable env cache) : GoodCache env cache :=
   Lemmas.JsonCodecChoiceCache.reachable_good env cache h
+
+abbrev runCalls := Lemmas.JsonCodecChoiceCache.runCalls
+
+/-- **calls_history_independent (C09 corollary, sequences of calls).** For any list `ts` of earlier calls (the types
+whose values were marshalled before, in any order, with repetitions), the codec obtained for `t` afterwards is the
+codec obtained with a cold cache. -/
+theorem calls_history_independent (env : Env) (ts : List TD) (t : TD) :
+    (constructCachedCodec env t (runCalls env ts [])).1 = (constructCachedCodec env t []).1 :=
+  Lemmas.JsonCodecChoiceCache.calls_history_independent env ts t
 
 /-- non-vacuity: after marshalling T (`(*T).MarshalJSON`) the cache is reachable, correct, and `[]T` still gets the
 pointer-receiver method for its elements -/
@@ -159,8 +219,10 @@ theorem reuse_of_cached_element_codec_depends_on_history :
 end Enc.Props.C01Codec
 
 #print axioms Enc.Props.C01Codec.choose_terminates
+#print axioms Enc.Props.C01Codec.choose_eq_std
 #print axioms Enc.Props.C01Codec.choose_eq_std_partial
 #print axioms Enc.Props.C01Codec.marshaler_order_eq_std
 #print axioms Enc.Props.C01Codec.cache_history_independent
+#print axioms Enc.Props.C01Codec.calls_history_independent
 #print axioms Enc.Props.C01Codec.embedded_under_construction_differs
 #print axioms Enc.Props.C01Codec.reuse_of_cached_element_codec_depends_on_history
